@@ -233,6 +233,23 @@ Theorem C07_run_erase_sim : forall k terms nl sched s s', CInv k terms nl s ->
 Proof. exact run_erase_sim. Qed.
 Print Assumptions C07_run_erase_sim.
 
+(* 8'. the count-tracking projection (table with counts, no ownership) reproduces the
+   table of the full model exactly, counts included *)
+Theorem C07_erase_rc_sim : forall k terms nl s a s' r, CInv k terms nl s ->
+  step k terms nl s a = Some (s', r) ->
+  match erase_rc a with
+  | Some ra => step_rc k terms nl (cn s) ra = Some (cn s', r)
+  | None => cn s' = cn s /\ r = None
+  end.
+Proof. exact erase_rc_sim. Qed.
+Print Assumptions C07_erase_rc_sim.
+
+Theorem C07_run_erase_rc_sim : forall k terms nl sched s s', CInv k terms nl s ->
+  run k terms nl s sched = Some s' ->
+  run_rc k terms nl (cn s) (erase_rc_list sched) = Some (cn s').
+Proof. exact run_erase_rc_sim. Qed.
+Print Assumptions C07_run_erase_rc_sim.
+
 (* the replay alone keeps the structural table invariant *)
 Theorem C07_step_tbl_inv : forall k terms nl t a t' r,
   TInv k terms nl t -> step_tbl k terms nl t a = Some (t', r) -> TInv k terms nl t'.
